@@ -429,11 +429,11 @@ STOP_RE = re.compile(rb"<StopIter instance @ 0x[0-9a-f]+>")
 
 def fnv(h, data):
     for c in data:
-        h = ((h ^ c) * 1099511628211) & 0xFFFFFFFFFFFFFFFF
+        h = ((h ^ c) * 1099511628211) & 0x7FFFFFFFFFFFFFFF
     return h
 
 
-FNV0 = 14695981039346656037
+FNV0 = 2166136261
 
 
 class Out:
